@@ -4,10 +4,10 @@ import (
 	"fmt"
 	"math/rand"
 	"os"
-	"time"
 	"sort"
 	"strings"
 	"sync"
+	"time"
 
 	"verif/harness/internal/probe"
 )
